@@ -42,7 +42,7 @@ RULE = ("a case = (scenario, set|multiset, key kind, layout, routing, buffer, po
         "against its own contents; a quarter of the multi-rank cases run the same scenario, through the same template instantiations, on a "
         "sub-communicator (MPI_Comm_split of the world by local id: last-vs-rest or parity) AND on the world communicator of one process, in "
         "either order, and both runs (every sub-communicator group and the world) are judged with the same oracles / model comparison; "
-        "in 40 % of the scenarios some ranks call comm.stats_reset() between operations and after barriers (set / multiset have no copy constructor)")
+        "in 40 % of the scenarios some ranks call comm.stats_reset() between operations and after barriers (set / multiset have no copy constructor); environment dimension rotated over the cases: YGM_COMM_ISSEND_FREQ in {0,1,8}, YGM_COMM_NUM_IRECVS in {1,2,8}, YGM_COMM_NUM_ISENDS_WAIT in {0,1,4}, capacity 0 / 1 KB / default for every container kind, cyclic rank placement for a third of the multi-node cases; uint64 keys / values over the whole 64-bit range; the order search keeps the program order of every sender (per-sender FIFO), dependent pairs of one rank on one key and reductions around a swap in opposite key order are generated on purpose")
 
 
 class SetFlavour(E.MapFlavour):
@@ -260,6 +260,8 @@ class SetFlavour(E.MapFlavour):
 FLAVOURS = ([SetFlavour(w, k, v) for v in ("d", "g", "p") for w in ("set", "multiset") for k in ("s", "i")]
             + [SetFlavour(w, "u", "d") for w in ("set", "multiset")])
 ASSUME = ["every operation is executed exactly once, atomically, on owner(key) before the barrier returns (C01/C02/C08; Dist.Complete)",
+          "operations issued by one rank (resp. by the handlers of one rank) for one owner are executed in the order they were issued (MPI non-overtaking + "
+          "one route per pair); the order search of the multi-rank oracle requires it",
           "std::hash is a parameter (owners are read from the real run); the order of elements inside std::multiset is not compared",
           "runs aborted by the messaging layer (comm.ipp assertion, deadlock) are C03's subject and are skipped here, counted in the distribution"]
 
